@@ -150,7 +150,7 @@ Registrar R_C07(&P_C07);
 Property P_C08 = { "C08", diff_init, c08_run,
   { { "diff", j_diff, "entry point c called with (a,b): results bit-identical in all configurations that select the same sqrt algorithm" },
     { "sqrt_algos", j_sqrt_algos, "|sqrt_abacus(x) - sqrt_std_math(x)| <= 1 ulp for x in [0,2^47); a = raw" } },
-  { "domain-fixed,fixed", "domain-fixed,none", "domain-fixed,shift-count", "domain-int32-angle,none", "domain-float-bits,none", "domain-double-bits,none", "domain-fixed,uint64", "domain-fixed,double-bits", "sqrt-algorithms-compared", "sqrt-algorithms-differ-by-1ulp" },
+  { "domain-fixed,fixed", "domain-fixed,none", "domain-fixed,shift-count", "domain-int32-angle,none", "domain-float-bits,none", "domain-double-bits,none", "domain-fixed,uint64", "domain-fixed,double-bits", "sqrt-algorithms-compared" },
   "NaN-sentinel fixed arguments and shift counts from the boundary product, every 16th random tuple, sqrt arguments >= 2^46 raw or < 16; distinct by (entry,a,b)", {}, {} };
 Registrar R_C08(&P_C08);
 }
